@@ -104,9 +104,12 @@ def gen_foreach(rng, p):
     if r < 0.55:
         return rng.choice(['{lst}', '{empty}', '{tup}'])
     if r < 0.75:
-        return py(rng.choice([name('lst'), name('empty'), ['list', [['int', 1], name('n')]],
-                              ['tuple', [['str', 'a'], ['str', 'b']]], name('tup'),
-                              ['add', name('lst'), ['list', [['int', 9]]]]]))
+        v = py(rng.choice([name('lst'), name('empty'), ['list', [['int', 1], name('n')]],
+                           ['tuple', [['str', 'a'], ['str', 'b']]], name('tup'),
+                           ['add', name('lst'), ['list', [['int', 9]]]]]))
+        if rng.random() < 0.3:
+            v['iter'] = True      # written iter(<expr>): a one-shot iterator, consumed once by the loop
+        return v
     if r < 0.85:
         return {'d': [['k1', 1], ['k2', 2]]}
     if r < 0.88:
@@ -263,6 +266,10 @@ def gen_step(rng, p, pipe, group, idx, targets, handlers, later_pipes, depth_tag
             if 'while' in loops:
                 conds += [['cmp', 'eq', name('whileCounter'), ['int', 2]]] * 2
             cfg.append(['when', py(rng.choice(conds))])
+        if 'retry' in loops and rng.random() < 0.25:
+            # raised `from` another error: filters, names and records go by the error itself
+            cfg.append(['cause', rng.choice(['KeyError', 'ValueError', 'vfail.CustomError', 'RuntimeError',
+                                             'pypyr.errors.ContextError'])])
         if rng.random() < p['p_cached']:
             # a step that raises ONE pre-built exception object again at every failure
             k = rng.choice([0, 0, 1])
@@ -389,6 +396,8 @@ def gen_case(rng, profile=None):
     case = {'lib': lib, 'main': 'main', 'dict_in': dict_in, 'jit': rng.choice([[1, 4], [0, 1], [1, 1], [1, 2]])}
     if rng.random() < 0.06:
         case['flow'] = True         # the pipeline file written on one line, flow style
+    if rng.random() < 0.1:
+        case['debuglog'] = True     # run with every log level enabled (handlers discard the records)
     if rng.random() < 0.04:
         case['dict_in'] = None
     if rng.random() < 0.12:
@@ -403,6 +412,12 @@ def gen_case(rng, profile=None):
     elif rng.random() < 0.1 and main_handlers:
         # partially given: only a handler, groups defaulted
         case[rng.choice(['success', 'failure'])] = rng.choice(main_handlers)
+    if rng.random() < 0.04:
+        # an EMPTY groups list (as `pypyr pipe --groups` gives): everything is defaulted, handlers too
+        case['groups'] = []
+        if rng.random() < 0.7:
+            case.pop('success', None)
+            case.pop('failure', None)
     return case
 
 
